@@ -163,7 +163,7 @@ def execute(case):
         r = dc.same(got, exp)
         if r:
             what = "vanished-group-still-reported" if (
-                expr["group"] and hasattr(got, "index") and hasattr(exp, "index")
+                expr["group"] and isinstance(got, pd.Series) and isinstance(exp, pd.Series)
                 and set(map(repr, got.index)) > set(map(repr, exp.index))) else "wrong-value"
             v.append(("%s:%s:%s" % (ID, name, what),
                       "after batch %d of split %s, window %s, rows %s%s: streamz %r, pandas %r: %s"
